@@ -534,7 +534,8 @@ func c15Severity(c *Ctx) {
 		ok := false
 		for _, cl := range compositeLits(ctor.Pkg.TypesInfo, ctor.Decl.Body, "internal/promapi.FailoverGroup") {
 			if v := litField(cl, "strictErrors"); v != nil {
-				if id, isID := v.(*ast.Ident); isID && id.Name == "strictErrors" {
+				sig := ctor.Obj.Type().(*types.Signature)
+				if i := paramIndex(sig, "strictErrors"); i >= 0 && isObj(ctor.Pkg.TypesInfo, v, sig.Params().At(i)) {
 					ok = true
 				}
 			}
